@@ -79,11 +79,11 @@ func kindOf(t types.Type) string {
 
 func (s site) key() string { return s.Func + " " + s.Type + " " + s.Field + " " + s.Role }
 
-func listSites(serviceDir string) ([]site, []edge, []capture, error) {
+func listSites(serviceDir string) ([]site, []edge, []capture, []fieldDecl, error) {
 	fset := token.NewFileSet()
 	ents, err := os.ReadDir(serviceDir)
 	if err != nil {
-		return nil, nil, nil, err
+		return nil, nil, nil, nil, err
 	}
 	var files []*ast.File
 	for _, e := range ents {
@@ -93,22 +93,39 @@ func listSites(serviceDir string) ([]site, []edge, []capture, error) {
 		}
 		f, err := parser.ParseFile(fset, filepath.Join(serviceDir, n), nil, 0)
 		if err != nil {
-			return nil, nil, nil, err
+			return nil, nil, nil, nil, err
 		}
 		files = append(files, f)
 	}
 	wd, _ := os.Getwd()
 	if err := os.Chdir(serviceDir); err != nil { // the source importer resolves imports relative to the module of cwd
-		return nil, nil, nil, err
+		return nil, nil, nil, nil, err
 	}
 	defer os.Chdir(wd)
 	info := &types.Info{Selections: map[*ast.SelectorExpr]*types.Selection{}, Uses: map[*ast.Ident]types.Object{},
 		Defs: map[*ast.Ident]types.Object{}, Types: map[ast.Expr]types.TypeAndValue{}}
 	conf := types.Config{Importer: importer.ForCompiler(fset, "source", nil), Error: func(error) {}}
-	if _, err := conf.Check("github.com/cuteLittleDevil/go-jt808/service", fset, files, info); err != nil {
+	pkg, err := conf.Check("github.com/cuteLittleDevil/go-jt808/service", fset, files, info)
+	var pkgScope *types.Scope
+	if pkg != nil {
+		pkgScope = pkg.Scope()
+	}
+	if err != nil {
 		// type errors in unrelated code are tolerated as long as the selections were resolved
 		if len(info.Selections) == 0 {
-			return nil, nil, nil, fmt.Errorf("type check: %v", err)
+			return nil, nil, nil, nil, fmt.Errorf("type check: %v", err)
+		}
+	}
+	var decls []fieldDecl
+	if pkgScope != nil {
+		for _, n := range pkgScope.Names() {
+			if tn, ok := pkgScope.Lookup(n).(*types.TypeName); ok && staticTypes[tn.Name()] {
+				if st, ok := tn.Type().Underlying().(*types.Struct); ok {
+					for i := 0; i < st.NumFields(); i++ {
+						decls = append(decls, fieldDecl{tn.Name(), st.Field(i).Name(), typeStr(st.Field(i).Type())})
+					}
+				}
+			}
 		}
 	}
 	var out []site
@@ -293,6 +310,18 @@ func listSites(serviceDir string) ([]site, []edge, []capture, error) {
 						if cn := calleeName(x.Fun); cn != "" && !skipCall[x] {
 							edges = append(edges, edge{"call", fn, cn, fset.Position(x.Pos()).String()})
 						}
+						// a method value / function of this package handed to a standard-library caller that invokes it
+						// synchronously (sync.Once.Do(c.shutdown), sort.Slice, bytes.IndexFunc ...) runs in this goroutine
+						if syncCaller(info, x.Fun) {
+							for _, a := range x.Args {
+								if _, isLit := a.(*ast.FuncLit); isLit {
+									continue // literals are call edges anyway
+								}
+								if cn := calleeName(a); cn != "" {
+									edges = append(edges, edge{"call", fn, cn, fset.Position(a.Pos()).String()})
+								}
+							}
+						}
 						if id, ok := x.Fun.(*ast.Ident); ok && len(x.Args) > 0 {
 							switch id.Name {
 							case "clear", "delete", "copy":
@@ -375,7 +404,42 @@ func listSites(serviceDir string) ([]site, []edge, []capture, error) {
 		}
 	}
 	sort.Slice(uniqC, func(i, j int) bool { return uniqC[i].key() < uniqC[j].key() })
-	return uniq, uniqE, uniqC, nil
+	return uniq, uniqE, uniqC, decls, nil
+}
+
+// syncCaller: the called function belongs to a standard-library package whose higher-order functions call their
+// function argument before they return (no goroutine, nothing stored).
+func syncCaller(info *types.Info, fun ast.Expr) bool {
+	var obj types.Object
+	switch x := fun.(type) {
+	case *ast.SelectorExpr:
+		if sel := info.Selections[x]; sel != nil {
+			obj = sel.Obj()
+		} else {
+			obj = info.Uses[x.Sel]
+		}
+	case *ast.Ident:
+		obj = info.Uses[x]
+	}
+	if obj == nil || obj.Pkg() == nil {
+		return false
+	}
+	switch obj.Pkg().Path() {
+	case "sync", "sort", "slices", "bytes", "strings", "maps":
+		return true
+	}
+	return false
+}
+
+// fieldDecl: a field of one of the statically placed structs as declared in the current tree.
+type fieldDecl struct{ Struct, Field, Type string }
+
+func typeStr(t types.Type) string {
+	if sig, ok := t.Underlying().(*types.Signature); ok { // parameter names are not part of what a field is
+		return fmt.Sprintf("func/%d/%d", sig.Params().Len(), sig.Results().Len())
+	}
+	ts := strings.ReplaceAll(types.TypeString(t, func(p *types.Package) string { return p.Name() }), " ", "")
+	return strings.ReplaceAll(ts, "service.", "")
 }
 
 func structOfExpr(e ast.Expr) string {
